@@ -1980,6 +1980,23 @@ impl ArchiveBuilder {
         Ok(())
     }
 
+    /// Write the low `bit_count` bits of `value` at an arbitrary bit offset (LSB first)
+    fn write_bits_at(data: &mut [u8], bit_offset: usize, value: u64, bit_count: u32) -> Result<()> {
+        if (bit_offset + bit_count as usize).div_ceil(8) > data.len() {
+            return Err(Error::invalid_format("Bit entry out of bounds"));
+        }
+        for bit in 0..bit_count as usize {
+            let position = bit_offset + bit;
+            let mask = 1u8 << (position % 8);
+            if bit < 64 && (value >> bit) & 1 == 1 {
+                data[position / 8] |= mask;
+            } else {
+                data[position / 8] &= !mask;
+            }
+        }
+        Ok(())
+    }
+
     /// Calculate the number of bits needed to represent a value
     fn calculate_bits_needed(max_value: u64) -> u32 {
         if max_value == 0 {
@@ -2165,15 +2182,29 @@ impl ArchiveBuilder {
                 // Get flag index
                 let flag_index = flag_index_map.get(&entry.flags).unwrap();
 
-                // Pack entry data
-                let mut entry_bits = 0u64;
-                entry_bits |= (entry.file_pos as u64) << bit_index_file_pos;
-                entry_bits |= (entry.file_size as u64) << bit_index_file_size;
-                entry_bits |= (entry.compressed_size as u64) << bit_index_cmp_size;
-                entry_bits |= (*flag_index as u64) << bit_index_flag_index;
-
-                // Write to file table
-                self.write_bit_entry(&mut file_table, i, entry_bits, table_entry_size)?;
+                // Write the fields one by one: a whole entry may be wider than 64 bits
+                let entry_bit_offset = i * table_entry_size as usize;
+                for (bit_index, bit_count, value) in [
+                    (bit_index_file_pos, bit_count_file_pos, entry.file_pos as u64),
+                    (bit_index_file_size, bit_count_file_size, entry.file_size as u64),
+                    (
+                        bit_index_cmp_size,
+                        bit_count_cmp_size,
+                        entry.compressed_size as u64,
+                    ),
+                    (
+                        bit_index_flag_index,
+                        bit_count_flag_index,
+                        *flag_index as u64,
+                    ),
+                ] {
+                    Self::write_bits_at(
+                        &mut file_table,
+                        entry_bit_offset + bit_index as usize,
+                        value,
+                        bit_count,
+                    )?;
+                }
 
                 // Generate BET hash: the same name hash the HET table is built from, as the
                 // reader's BetTable::verify_file_hash computes it
